@@ -75,7 +75,8 @@ func clone(p *govtypes.NetworkProperties) *govtypes.NetworkProperties {
 var numValues = []uint64{0, 1, 2, 3, 10, 100, 300, 604800, 2629800, 31557600, 31557601, 1 << 32, 1<<63 - 1, 1 << 63, 1<<64 - 1}
 var strValues = []string{"", "0", "1", "0.5", "0.33", "0.333333333333333333", "0.333333333333333334", "0.51", "1.000000000000000001",
 	"1.0000000000000000001", "-1", "--1", "+0.25", "2", "abc", "1.", ".5", "1.2.3", "00.10", "-0.0", "1e3", " 1",
-	"moniker", "moniker,username", "Moniker", "username", "moniker,,x", "moniker,1abc", "moniker,a_b,c9", "a,moniker", "moniker,twitter", "moniker,username,twitter"}
+	"moniker", "moniker,username", "Moniker", "username", "moniker,,x", "moniker,1abc", "moniker,a_b,c9", "a,moniker", "moniker,twitter", "moniker,username,twitter",
+	"twitter,moniker,username", "moniker,twitter,username", "a_b,moniker,username", "moniker,username,c9", "moniker,username,username", "username,moniker"}
 
 type jcase struct {
 	Kind    string `json:"kind"`
@@ -133,7 +134,7 @@ func mutate(r *hx.Rng, p *govtypes.NetworkProperties, invalidPct int) (*govtypes
 			desc = append(desc, name)
 		case string:
 			if r.Chance(invalidPct) {
-				f.SetString(strValues[22+r.Intn(10)])
+				f.SetString(strValues[22+r.Intn(len(strValues)-22)])
 				desc = append(desc, name)
 			}
 		}
